@@ -688,7 +688,15 @@ static void build_expr(WorkList *list, ASTNode *expr, Environment *env) {
             if (expr->as.float_val == (double)(int64_t)expr->as.float_val) {
                 emit_formatted(list, "%.1f", expr->as.float_val);
             } else {
-                emit_formatted(list, "%g", expr->as.float_val);
+                /* "%g" keeps only 6 significant digits: use the shortest
+                 * precision that reads back as exactly the same double
+                 * (17 digits always do) */
+                char fbuf[64];
+                for (int prec = 6; prec <= 17; prec++) {
+                    snprintf(fbuf, sizeof(fbuf), "%.*g", prec, expr->as.float_val);
+                    if (strtod(fbuf, NULL) == expr->as.float_val) break;
+                }
+                emit_literal(list, fbuf);
             }
             break;
             
